@@ -4,6 +4,7 @@ Driver handlers for property C14.
 
 * `c14.run`  — the model's prediction for one run: write log, report, file system afterwards
 * `c14.spec` — the specification evaluated on what the implementation did
+* `c14.callspec` — its placement clauses for one call of a multi-context stream on one API object
 -/
 namespace Pydjinni.Drv.C14
 open Lean Pydjinni.GenC Pydjinni.SysC Pydjinni.Drv.SysJson
@@ -88,20 +89,9 @@ def doubled (cwd : List String) (dir : Path) (written : Path) : Bool :=
   !dir.abs && !dir.parts.isEmpty &&
     (resolve cwd (dir.join dir)).isPrefixOf (resolve cwd written)
 
-def spec (req : Json) : Except String Json := do
-  let q ← decodeReq req
-  let impl ← req.getObjVal? "impl"
-  let logS ← getStrs impl "log"
-  let created ← getStrs impl "created"      -- absolute paths that exist afterwards and did not before, or changed
-  let deleted ← getStrs impl "deleted"
-  let rep ← impl.getObjVal? "report"
-  let repIdl ← getStrs rep "idl"
-  let repExt ← getStrs rep "ext"
-  let genJ ← rep.getObjVal? "generated"
-  let genObj ← genJ.getObj?
-  let gens ← genObj.toList.mapM (fun (k, v) => decodeImplGen k v)
-  let expIdl ← getStrs req "expectIdl"
-  let expExt ← getStrs req "expectExt"
+/-- clauses 1–3 of the specification — where the writes of the observed calls went, what else changed on disk — for the
+    calls described by `q` (configuration of the *generating* context, targets generated, `clean`, report path) -/
+def placementFails (q : Req) (logS created deleted : List String) : List (String × String) := Id.run do
   let cwd := q.run.cwd
   let res (s : String) := resolve cwd (Path.ofString s)
   let active := q.run.generators.filterMap (fun g => (q.run.gens g).map (fun c => (g, c)))
@@ -125,6 +115,56 @@ def spec (req : Json) : Except String Json := do
     if !(log.contains (absParts p)) then fails := fails ++ [("touched-outside", p)]
   for p in deleted do
     if !(q.run.clean && underSome (absParts p)) then fails := fails ++ [("deleted-outside", p)]
+  return fails
+
+/-- `c14.callspec`: the specification for ONE call of a stream of calls on one API object with several configured
+    contexts. `gens` / `report` are those of the context the call belongs to (for `generate`: the context that parsed
+    the result it generates from), `targets` is `[t]` for `generate(t)` and `[]` otherwise, `report` is only given for a
+    report call. Every write lands below the output directories of *that* context's generators of the target, nothing
+    else is created, changed or deleted, and `clean` leaves nothing that was below these directories before and has
+    not been written again. -/
+def callspec (req : Json) : Except String Json := do
+  let q ← decodeReq req
+  let impl ← req.getObjVal? "impl"
+  let logS ← getStrs impl "log"
+  let created ← getStrs impl "created"
+  let deleted ← getStrs impl "deleted"
+  let mut fails := placementFails q logS created deleted
+  let cwd := q.run.cwd
+  let active := q.run.generators.filterMap (fun g => (q.run.gens g).map (fun c => (g, c)))
+  let rdirs := (active.flatMap (fun (_, c) => [c.out.header, c.out.source])).map (resolve cwd)
+  let log := logS.map (fun s => resolve cwd (Path.ofString s))
+  if q.run.clean then
+    for p in q.before do
+      if rdirs.any (fun d => under d p) && !(deleted.map absParts).contains p && !log.contains p then
+        fails := fails ++ [("clean-left-stale", "/" ++ "/".intercalate p)]
+  -- a generate call for a configured target writes something
+  if !q.run.targets.isEmpty && logS.isEmpty then
+    fails := fails ++ [("nothing-written", ",".intercalate (q.run.targets.map T.key))]
+  pure (Json.mkObj [("holds", fails.isEmpty),
+    ("fails", Json.arr (fails.map (fun (k, d) => Json.mkObj [("key", k), ("detail", d)])).toArray)])
+
+def spec (req : Json) : Except String Json := do
+  let q ← decodeReq req
+  let impl ← req.getObjVal? "impl"
+  let logS ← getStrs impl "log"
+  let created ← getStrs impl "created"      -- absolute paths that exist afterwards and did not before, or changed
+  let deleted ← getStrs impl "deleted"
+  let rep ← impl.getObjVal? "report"
+  let repIdl ← getStrs rep "idl"
+  let repExt ← getStrs rep "ext"
+  let genJ ← rep.getObjVal? "generated"
+  let genObj ← genJ.getObj?
+  let gens ← genObj.toList.mapM (fun (k, v) => decodeImplGen k v)
+  let expIdl ← getStrs req "expectIdl"
+  let expExt ← getStrs req "expectExt"
+  let cwd := q.run.cwd
+  let res (s : String) := resolve cwd (Path.ofString s)
+  let active := q.run.generators.filterMap (fun g => (q.run.gens g).map (fun c => (g, c)))
+  let reportAbs := q.reportPath.map (resolve cwd)
+  let isReport (p : List String) := reportAbs == some p
+  -- 1.–3. placement of the writes, nothing else touched
+  let mut fails := placementFails q logS created deleted
   -- 4. the report lists exactly the writes, per generator, with its directories
   let listed := gens.flatMap (fun g => g.header ++ g.source)
   let logNoReport := (logS.filter (fun p => !isReport (res p)))
@@ -158,6 +198,7 @@ def handle (op : String) (req : Json) : Except String Json :=
   match op with
   | "c14.run" => do let q ← decodeReq req; pure (run q)
   | "c14.spec" => spec req
+  | "c14.callspec" => callspec req
   | _ => throw s!"unknown op {op}"
 
 end Pydjinni.Drv.C14
